@@ -283,7 +283,25 @@ def std_proof_coverage(res, pid, extra_obligations=0, extra_discharged=0, extra_
         "axioms_per_theorem": po["axioms"] or "none (all Closed under the global context)",
         "props_recheck_s": round(po["secs"], 2),
     })
+    if os.environ.get("VERIF_TIER", "quick") == "thorough":
+        res.coverage["coqchk"] = coqchk_props(pid)
     return po
+
+
+def coqchk_props(pid):
+    """Thorough tier: re-check the compiled Props/<pid>.vo and everything it depends on with the independent checker."""
+    rc, so, se, dt = run(["coqchk", "-silent", "-o", "-Q", os.path.join(COQ, "theories"), "MV", "MV.Props." + pid], cwd=COQ, timeout=3000)
+    txt = so + se
+    if rc != 0:
+        raise Broken("coqchk rejected MV.Props.%s: %s" % (pid, txt[-1500:]))
+    out = {"seconds": round(dt, 1)}
+    for key, label in (("axioms", "Axioms"), ("type_in_type", "Constants/Inductives relying on type-in-type"),
+                       ("unsafe_fixpoints", "Constants/Inductives relying on unsafe (co)fixpoints"), ("assumed_positivity", "Inductives whose positivity is assumed")):
+        m = re.search(r"\* " + re.escape(label) + r":\s*(.*?)(?:\n\s*\n|\Z)", txt, re.S)
+        out[key] = re.sub(r"\s+", " ", m.group(1)).strip() if m else "?"
+    if out["axioms"] != "<none>":
+        raise Broken("coqchk reports axioms under MV.Props.%s: %s" % (pid, out["axioms"]))
+    return out
 
 
 def parse_printed(out, name):
